@@ -54,6 +54,8 @@ func init() {
 }
 
 func runC16(c *Ctx, r *Report) {
+	r.Rule("C16/child-lifetime", "the system transport ties the life of its ssh child to Close only (no SysProcAttr, no CommandContext)", 1)
+	checkChildLifetime(c, r, "C16/child-lifetime")
 	importFoundation(c, r, "C16", "telnet-negotiation")
 	r.Rule("C16/deadline-cleared", "a read / write deadline a transport arms for a bounded phase is disarmed (same side, or both) on every path that reports success", 1)
 	checkDeadlineCleared(c, r, "C16/deadline-cleared")
